@@ -44,3 +44,18 @@ def native_replay_q(v, path):
         return None
     rc, out = native.run_test("Q", "native/q_replay.rs", "core/src/common/ordered_work_steal.rs", test)
     return native.verdict(rc, out, dict(test=test, decisive=False, scenario="fixed: " + test))
+
+
+def conformance(run):
+    """shim conformance (DESIGN 3.2): the scenarios of contracts/conformance must hold natively on the real crates
+    and under Kani on the shims; otherwise the run is inconclusive"""
+    import subprocess, time, os
+    t0 = time.time()
+    p = subprocess.run([os.path.join(os.path.dirname(os.path.abspath(__file__)), "..", "tools", "conformance.sh")],
+                       stdout=subprocess.PIPE, stderr=subprocess.STDOUT, text=True)
+    lines = [l for l in p.stdout.splitlines() if l.startswith("conformance")]
+    run.units.append(dict(unit="shim_conformance", backend="cargo test (real crates) + kani (shims)",
+                          verdict="discharged" if p.returncode == 0 else "undecided", detail=lines, wall_s=round(time.time() - t0, 1)))
+    run.cmds.append("tools/conformance.sh")
+    if p.returncode != 0:
+        run.inconclusive.append("shim conformance failed: " + " | ".join(lines))
